@@ -179,3 +179,100 @@ def front_stream(ctx, drv, n):
     for i in range(n):
         case = gen_case(rng0.fork(i), i)
         front_case(ctx, drv, case, i)
+
+
+# ---------------------------------------------------------------------------------------------------
+# filesystem primitives on every KIND of directory entry vs Model/SaveInstall.lean
+KINDS = [None, "file", "dir:empty", "dir:nonempty", "link:dir", "link:file", "link:dangling"]
+PRE_KIND = {"absent": None, "file": "file", "emptyfile": "file", "dir": "dir:nonempty", "placeholderdir": "dir:nonempty",
+            "emptydir": "dir:empty", "linkfile": "link:file", "linkdir": "link:dir", "dangling": "link:dangling"}
+
+
+def make_kind(path, kind):
+    """create an entry of the given kind at `path`; links point at `<path>.ref`"""
+    ref = path + ".ref"
+    if kind is None:
+        return
+    if kind == "file":
+        open(path, "w").write("x")
+    elif kind == "dir:empty":
+        os.makedirs(path)
+    elif kind == "dir:nonempty":
+        os.makedirs(os.path.join(path, "in"))
+        open(os.path.join(path, "in", "f"), "w").write("y")
+    elif kind == "link:dir":
+        os.makedirs(os.path.join(ref, "deep"))
+        open(os.path.join(ref, "deep", "g"), "w").write("z")
+        os.symlink(ref, path)
+    elif kind == "link:file":
+        open(ref, "w").write("referent")
+        os.symlink(ref, path)
+    elif kind == "link:dangling":
+        os.symlink(path + ".missing", path)
+
+
+def kind_of(path):
+    if not os.path.lexists(path):
+        return None
+    if os.path.islink(path):
+        return "link:dangling" if not os.path.exists(path) else ("link:dir" if os.path.isdir(path) else "link:file")
+    if os.path.isdir(path):
+        return "dir:empty" if not os.listdir(path) else "dir:nonempty"
+    return "file"
+
+
+def primitives_stream(ctx, drv):
+    """os.remove / shutil.rmtree / rmtree(ignore_errors) / os.replace / os.path.* on every kind (pair of kinds):
+    result kinds, exception classes and the referents of links, real filesystem vs model (exhaustive, 7 + 3*7 + 49 cases)"""
+    scratch = os.path.join(os.environ.get("QVERIF_SCRATCH", "/tmp"), "c08", "prims")
+
+    def fresh():
+        shutil.rmtree(scratch, ignore_errors=True)
+        os.makedirs(scratch)
+        return os.path.join(scratch, "a"), os.path.join(scratch, "b")
+
+    def attempt(f):
+        try:
+            f()
+            return None
+        except Exception as e:  # noqa
+            return type(e).__name__
+
+    for ka in KINDS:
+        a, b = fresh()
+        make_kind(a, ka)
+        ctx.count()
+        impl = {"isdir": os.path.isdir(a), "islink": os.path.islink(a), "lexists": os.path.lexists(a), "exists": os.path.exists(a)}
+        model = drv.ask({"op": "kinds", "fn": "preds", "a": ka}).get("ok")
+        if model != impl:
+            ctx.disagree("fs-primitives", {"prim": "os.path.*", "a": ka}, model, impl)
+        for fn, call in (("remove", lambda p: os.remove(p)), ("rmtree", lambda p: shutil.rmtree(p)),
+                         ("rmtreeIgnore", lambda p: shutil.rmtree(p, ignore_errors=True))):
+            a, b = fresh()
+            make_kind(a, ka)
+            ref_before = _hash(a + ".ref")
+            ctx.count()
+            err = attempt(lambda: call(a))
+            impl = {"raises": err} if err else {"a": kind_of(a)}
+            if _hash(a + ".ref") != ref_before:
+                impl["referent"] = "altered"
+            model = drv.ask({"op": "kinds", "fn": fn, "a": ka}).get("ok")
+            if model != impl:
+                ctx.disagree("fs-primitives", {"prim": fn, "a": ka}, model, impl)
+            ctx.mark(("prim", fn, ka))
+        for kb in KINDS:
+            a, b = fresh()
+            make_kind(a, ka)
+            make_kind(b, kb)
+            refs = (_hash(a + ".ref"), _hash(b + ".ref"))
+            ctx.count()
+            err = attempt(lambda: os.replace(a, b))
+            impl = {"raises": err} if err else {"a": kind_of(a), "b": kind_of(b)}
+            if (_hash(a + ".ref"), _hash(b + ".ref")) != refs:
+                impl["referent"] = "altered"
+            model = drv.ask({"op": "kinds", "fn": "replace", "a": ka, "b": kb}).get("ok")
+            if model != impl:
+                ctx.disagree("fs-primitives", {"prim": "replace", "a": ka, "b": kb}, model, impl)
+            ctx.mark(("prim", "replace", ka, kb))
+    ctx.dist["fs_primitive_cases"] += len(KINDS) * (4 + len(KINDS))
+    shutil.rmtree(scratch, ignore_errors=True)
